@@ -1,4 +1,5 @@
 import Saito.Lemmas.ChainState
+import Saito.Lemmas.StateInv
 /-!
 # C05 — fork choice
 Decision logic of `is_new_chain_the_longest_chain` and `is_golden_ticket_count_valid_` stated outright, the
@@ -116,6 +117,58 @@ def gtSide : List ABlock :=
 theorem ticket_density_witness :
     latest (deliver {} (gtMain ++ gtSide)) = some (10, 19) ∧
     latest (deliver { gtEveryBlock := true } (gtMain ++ gtSide)) = some (9, 9) := by
+  decide +kernel
+
+
+def wblk (h p i : Nat) (ins outs : List Nat) : ABlock :=
+  { hash := h, prev := p, id := i, burnfee := 10, hasGT := true, ok := true, ins := ins, outs := outs }
+
+/-- the first `n` deliveries of: genesis 1, chain 1←2←3, side blocks 4 (child of 1) and 5 (child of 4) -/
+def deliverW (n : Nat) : State :=
+  ([wblk 1 0 1 [] [10, 11], wblk 2 1 2 [10] [12], wblk 3 2 3 [12] [13], wblk 4 1 2 [10] [14],
+    wblk 5 4 3 [14, 11] [15]].take n).foldl
+    (fun s b => (addBlock { ringDeleteKeepsNone := true, windFailureRestores := true, txVerdict := true } s b []).1)
+    { gp := 100 }
+
+/-! ### fork choice at state level (under the state invariant, `Saito/Lemmas/StateInv.lean`) -/
+
+/-- **The tip height never drops.**  Repaired tree, state satisfying the invariant, non-orphan delivery: the
+    id reported by `latest` after `add_block` is at least the id reported before — whatever the outcome. -/
+theorem tip_height_monotone (fl : Flags) (hd : fl.ringDeleteKeepsNone = true) (hf : fl.windFailureRestores = true)
+    (hv : fl.txVerdict = true) (st : State) (b : ABlock) (q : List Nat) (h : StInv st) (d : Deliverable st b) :
+    ∃ i hi j hj, latest st = some (i, hi) ∧ latest (addBlock fl st b q).1 = some (j, hj) ∧ i ≤ j := by
+  obtain ⟨lc, h⟩ := h
+  obtain ⟨hi, hlat⟩ := h.latest_len
+  rcases addBlock_cases fl hd hf hv h d q with h1 | h1 | ⟨_, P, O, N, e1, h2, hlen, _⟩
+  · obtain ⟨hj, hlat'⟩ := h1.2.latest_len
+    exact ⟨_, hi, _, hj, hlat, hlat', Nat.le_refl _⟩
+  · obtain ⟨hj, hlat'⟩ := h1.2.1.latest_len
+    exact ⟨_, hi, _, hj, hlat, hlat', Nat.le_refl _⟩
+  · obtain ⟨hj, hlat'⟩ := h2.latest_len
+    refine ⟨_, hi, _, hj, hlat, hlat', ?_⟩
+    rw [e1]; simp only [List.length_append]; omega
+
+/-- **The tip moves only to a strictly longer chain.**  If the tip hash reported by `latest` changes, then the
+    longest chain `P ++ O` became `P ++ N` (same prefix `P` up to the fork point) with the new segment `N`
+    strictly longer than the segment `O` it replaces — the strict inequality is the one
+    `is_new_chain_the_longest_chain` tests (`longest_only_if`), carried through the Wind/Unwind loop. -/
+theorem tip_moves_only_to_longer (fl : Flags) (hd : fl.ringDeleteKeepsNone = true) (hf : fl.windFailureRestores = true)
+    (hv : fl.txVerdict = true) (st : State) (b : ABlock) (q : List Nat) (h : StInv st) (d : Deliverable st b)
+    (hchg : (latest (addBlock fl st b q).1).map (·.2) ≠ (latest st).map (·.2)) :
+    ∃ P O N : List ABlock,
+      lcDump st = (P ++ O).map (fun b => (b.id, b.hash)) ∧
+      lcDump (addBlock fl st b q).1 = (P ++ N).map (fun b => (b.id, b.hash)) ∧
+      O.length < N.length ∧ N.getLast? = some b := by
+  obtain ⟨lc, h⟩ := h
+  rcases addBlock_cases fl hd hf hv h d q with h1 | h1 | ⟨_, P, O, N, e1, h2, hlen, hlast, _⟩
+  · exact absurd (by rw [h1.2.latest, h.latest]) hchg
+  · exact absurd (by rw [h1.2.1.latest, h.latest]) hchg
+  · exact ⟨P, O, N, by rw [h.lcDump, e1], h2.lcDump, hlen, hlast⟩
+
+/-- non-vacuity (the witness history of C03): block 6 makes the side branch 4←5←6 overtake 2←3 -/
+example :
+    (latest (addBlock { ringDeleteKeepsNone := true, windFailureRestores := true, txVerdict := true }
+      (deliverW 5) (wblk 6 5 4 [15] [16]) []).1).map (·.2) ≠ (latest (deliverW 5)).map (·.2) := by
   decide +kernel
 
 end Saito.C05
